@@ -69,6 +69,19 @@ RCODE = {'scalar': 0, None: 0, 'control': 1, 'audio': 2, 'demand': 3}
 NOUTS = {'Pan2': 2, 'Out': 0, 'ReplaceOut': 0, 'OffsetOut': 0, 'LocalOut': 0, 'XOut': 0}
 META = {'localout_kr_rate': 'audio'}
 SPECIAL = {'BinaryOpUGen/+': 0, 'BinaryOpUGen/-': 1, 'BinaryOpUGen/*': 2, 'UnaryOpUGen/neg': 0}
+# the other operator methods of AbstractObject / functions of builtins: python name -> (server name, special index)
+NAMED_BIN = {'round': ('round', 19), 'roundup': ('roundUp', 20), 'trunc': ('trunc', 21), 'min': ('min', 12), 'max': ('max', 13),
+             'atan2': ('atan2', 22), 'hypot': ('hypot', 23), 'ring1': ('ring1', 30), 'ring2': ('ring2', 31), 'difsqr': ('difsqr', 34),
+             'sumsqr': ('sumsqr', 35), 'absdif': ('absdif', 38), 'thresh': ('thresh', 39), 'amclip': ('amclip', 40),
+             'scaleneg': ('scaleneg', 41), 'clip2': ('clip2', 42), 'excess': ('excess', 43), 'fold2': ('fold2', 44),
+             'wrap2': ('wrap2', 45), 'lcm': ('lcm', 17), 'gcd': ('gcd', 18)}
+NAMED_DEFAULT = {'round': 1, 'roundup': 1, 'trunc': 1, 'max': 0}          # methods with a default second operand
+NAMED_UN = {'abs': ('abs', 5), 'reciprocal': ('reciprocal', 16), 'ceil': ('ceil', 8), 'floor': ('floor', 9), 'frac': ('frac', 10),
+            'sign': ('sign', 11), 'log': ('log', 25), 'exp': ('exp', 15), 'sin': ('sin', 28), 'cos': ('cos', 29), 'tanh': ('tanh', 36),
+            'midicps': ('midicps', 17), 'cpsmidi': ('cpsmidi', 18), 'ampdb': ('ampdb', 22), 'dbamp': ('dbamp', 21),
+            'squared': ('squared', 12), 'cubed': ('cubed', 13), 'sqrt': ('sqrt', 14), 'distort': ('distort', 42), 'softclip': ('softclip', 43)}
+SPECIAL.update({'BinaryOpUGen/' + v[0]: v[1] for v in NAMED_BIN.values()})
+SPECIAL.update({'UnaryOpUGen/' + v[0]: v[1] for v in NAMED_UN.values()})
 
 
 def basekey(name):
@@ -253,6 +266,45 @@ class Gen:
             return {'kind': 'ugenrbinop', 'pre': pre, 'op': self.rng.choice('+*-'), 'a': y, 'b': x}
         return {'kind': 'ugenbinop', 'pre': pre, 'op': self.rng.choice('+*-'), 'a': x, 'b': y}
 
+    def named_op(self):
+        """every other operator method / builtins function at the ChannelList and UGen level; one side holds
+        only signals, so that no pair of plain numbers (numeric kernel, C15) arises; the other mixes numbers
+        and signals, numbers on the LEFT of a signal included (reflected dispatch)"""
+        rng = self.rng
+        pre = self.prelude(need_unit=True)
+        d = rng.choice([1, 1, 2, 3])
+        mixed = lambda dd, cl: self.tree(pre, dd, self.OPCONST, empty=0.0, tuples=0.0, p_list=0.8, cl=cl, p_unit=0.5)
+        sigs = lambda dd, cl: self.tree(pre, dd, self.OPCONST, empty=0.0, tuples=0.0, p_list=0.7, cl=cl, p_unit=1.0)
+        shape = rng.choice(['cl', 'cl', 'clr', 'ugen', 'ugenr', 'un'])
+        if shape == 'un':
+            name = rng.choice(sorted(NAMED_UN))
+            a = self.aslist(sigs(d, 0.3), 'C')
+            form = 'builtin' if (name == 'abs' and rng.random() < 0.5) else rng.choice(['method', 'function'] if name != 'abs' else ['method'])
+            return {'kind': 'clunop', 'pre': pre, 'named': name, 'form': form, 'a': a}
+        name = rng.choice(sorted(NAMED_BIN))
+        if shape == 'cl':
+            left_sig = rng.random() < 0.5
+            a = self.aslist(sigs(d, 0.3) if left_sig else mixed(d, 0.3), 'C')
+            b = mixed(d, 0.3) if left_sig else sigs(d, 0.3)
+            form = rng.choice(['method', 'function'] + (['builtin'] if name == 'round' else []))
+            if left_sig and name in NAMED_DEFAULT and rng.random() < 0.3 and (form != 'function' or name != 'max'):
+                b = None                                   # the default operand
+            return {'kind': 'clbinop', 'pre': pre, 'named': name, 'form': form, 'op': name, 'a': a, 'b': b}
+        if shape == 'clr':
+            b = self.aslist(sigs(d, 0.3), 'C')
+            a = mixed(d, 0.0)
+            if a[0] == 'U':
+                a = ['K', 5]
+            return {'kind': 'clrbinop', 'pre': pre, 'named': name, 'form': 'function', 'op': name, 'a': a, 'b': b}
+        x = self.ref(pre)
+        if shape == 'ugen':
+            return {'kind': 'ugenbinop', 'pre': pre, 'named': name, 'form': rng.choice(['method', 'function']), 'op': name,
+                    'a': x, 'b': mixed(d, 0.3)}
+        y = mixed(d, 0.0)
+        if y[0] == 'U':
+            y = ['K', 7]
+        return {'kind': 'ugenrbinop', 'pre': pre, 'named': name, 'form': 'function', 'op': name, 'a': y, 'b': x}
+
     def receiver(self, pre, depth, numbers):
         n = self.rng.choice([1, 2, 2, 3, 3, 4])
         items = []
@@ -338,7 +390,7 @@ class Gen:
             if k == 'ctor' and len(case['args']) >= 2:
                 case['args'][-1] = case['args'][0]
                 case['share'] = True
-            elif k in pairs and case.get(pairs[k][1]) is not None and case.get(pairs[k][0]) is not None:
+            elif k in pairs and not case.get('named') and case.get(pairs[k][1]) is not None and case.get(pairs[k][0]) is not None:
                 case[pairs[k][0]] = case[pairs[k][1]]
                 case['share'] = True
             elif k == 'method' and len(case['args']) >= 2:
@@ -387,6 +439,21 @@ OTHER_METHODS = {'dup', 'sum', 'poll', 'dpoll'}          # have case kinds of th
 # methods a NUMBER element answers (UGenScalar)
 SCALAR_METHODS = {'clip', 'fold', 'wrap', 'blend', 'lag', 'lag2', 'lag3', 'lagud', 'lag2ud', 'lag3ud', 'varlag', 'slew', 'prune',
                   'linlin', 'linexp', 'explin', 'expexp', 'lincurve', 'curvelin', 'bilin', 'biexp', 'moddif'}
+
+
+def clmeth_sweep():
+    """systematic part: EVERY convenience method with EVERY number of trailing positions left to the
+    defaults (0 .. all optional arguments given), on a two-channel mixed-rate receiver -- so that a
+    default-filled position of any method is exercised on every run, not by chance"""
+    vals = {'clip': ['S', 'min'], 'type': ['S', 'max'], 'start': ['N'], 'other': ['U', 1, 0]}
+    nums = [2, 3, 5, 7, 4, 6, 8]
+    out = []
+    for meth in sorted(METH_SIG):
+        names, nreq = METH_SIG[meth]
+        for ngiven in range(nreq, len(names) + 1):
+            args = [vals.get(nm, ['K', nums[j % len(nums)]]) for j, nm in enumerate(names[:ngiven])]
+            out.append({'kind': 'clmeth', 'pre': ['sin', 'sink'], 'meth': meth, 'self': ['C', [['U', 0, 0], ['U', 1, 0]]], 'args': args})
+    return out
 
 
 def gen_clmeth(g):
@@ -468,6 +535,14 @@ def model_call1(case):
             return 'audio_in_ctor %s %s %s [%s] %s [%s]' % (cid('DC', 'audio'), cid('K2A', 'audio'), cid(case['cls'], 'audio'),
                                                            '; '.join(T(a) for a in args[:ai]), T(args[ai]), '; '.join(T(a) for a in args[ai + 1:]))
         return 'multi_new (new1_plain %s %d) [%s]' % (cid(case['cls'], RATE[case['rate']]), spec['nouts'], '; '.join(T(a) for a in args))
+    if case.get('named'):
+        nm = case['named']
+        if k == 'clunop':
+            return 'cl_unop_named %s %s' % (base('UnaryOpUGen/' + NAMED_UN[nm][0]), T(case['a']))
+        bname = base('BinaryOpUGen/' + NAMED_BIN[nm][0])
+        b = case['b'] if case.get('b') is not None else ['K', NAMED_DEFAULT[nm]]
+        fn = {'clbinop': 'cl_binop_named', 'clrbinop': 'cl_rbinop_named', 'ugenbinop': 'ugen_binop_named', 'ugenrbinop': 'ugen_rbinop_named'}[k]
+        return '%s %s %s %s' % (fn, bname, T(case['a']), T(b))
     if k in ('clbinop', 'clrbinop'):
         fn = 'cl_binop' if k == 'clbinop' else 'cl_rbinop'
         return '%s %s %s %s %s' % (fn, BB, BOP[case['op']], T(case['a']), T(case['b']))
@@ -548,6 +623,18 @@ def show_call(case):
     if k == 'ctor':
         a = [show(x) for x in case['args']] + ['%s=%s' % (n, show(v)) for n, v in case.get('kwargs', {}).items()]
         c = '%s.%s(%s)' % (case['cls'], case['rate'], ', '.join(a))
+    elif k in ('clbinop', 'clrbinop', 'ugenbinop', 'ugenrbinop') and case.get('named'):
+        bb = [show(case['b'])] if case.get('b') is not None else []
+        form = case.get('form')
+        if form == 'builtin':
+            c = 'round(%s)' % ', '.join([show(case['a'])] + bb)
+        elif form == 'method' and case['a'][0] in ('C', 'U'):
+            c = '%s.%s(%s)' % (show(case['a']), case['named'], ', '.join(bb))
+        else:
+            c = 'builtins.%s(%s)' % (case['named'], ', '.join([show(case['a'])] + bb))
+    elif k == 'clunop' and case.get('named'):
+        form = case.get('form')
+        c = ('abs(%s)' if form == 'builtin' else '%%s.%s()' % case['named'] if form == 'method' else 'builtins.%s(%%s)' % case['named']) % show(case['a'])
     elif k in ('clbinop', 'clrbinop', 'ugenbinop', 'ugenrbinop'):
         c = '%s %s %s' % (show(case['a']), case['op'], show(case['b']))
     elif k == 'clunop':
@@ -644,6 +731,10 @@ def gen_cases(ctx):
         cases.append(A(g.sum()))
         cases.append(A(g.poll()))
         cases.append(g.narop())
+        cases.append(A(g.named_op()))
+        cases.append(A(g.named_op()))
+        cases.append(A(g.named_op()))
+    cases.extend(clmeth_sweep())
     for _ in range(n * 2):
         cases.append(gen_clmeth(g))
     return cases
